@@ -25,13 +25,45 @@ LISTING_CALLS = {"iterdir", "listdir", "scandir", "glob", "rglob", "walk"}
 ORDERS = {"sorted": lambda xs: sorted(xs), "reversed": lambda xs: sorted(xs, reverse=True), "rotated": lambda xs: (sorted(xs)[1:] + sorted(xs)[:1])}
 
 
-def _vfs(files: dict[str, str]) -> dict:
+def _vfs(files: dict[str, str], links: dict[str, str] | None = None) -> dict:
+    """Virtual file system.  `links` are directory symlinks (name -> target directory): the target's files are reachable under both names."""
     fs = {PP(k): v for k, v in files.items()}
+    lk = {PP(k): PP(v) for k, v in (links or {}).items()}
+    for name, target in lk.items():
+        if name.is_relative_to(target):
+            raise AnalysisError(f"virtual symlink {name} -> {target} would loop")
+        for f, text in list(fs.items()):
+            if f.is_relative_to(target):
+                fs[name / f.relative_to(target)] = text
     dirs = set()
     for p in fs:
         for anc in p.parents:
             dirs.add(anc)
-    return {"files": fs, "dirs": dirs}
+    return {"files": fs, "dirs": dirs, "links": lk}
+
+
+def _walk(i, top, topdown=True, followlinks=False, **_k):  # noqa: ANN001,ARG001
+    """os.walk over the virtual file system: a generator that honours in-place pruning of the directory list, in the injected listing order."""
+    vfs = i.vfs
+    files, dirs, order = vfs["files"], vfs["dirs"], vfs.get("order", lambda x: x)
+
+    def gen(d):
+        entries = order(sorted(p for p in [*files, *dirs] if p.parent == d and p != d))
+        dnames = [p.name for p in entries if p in dirs and (followlinks or p not in vfs.get("links", {}))]
+        fnames = [p.name for p in entries if p in files]
+        yield (str(d), dnames, fnames)
+        for name in list(dnames):
+            yield from gen(d / name)
+
+    return gen(PP(top))
+
+
+def _realpath(i, p, **_k):  # noqa: ANN001
+    p = PP(p)
+    for name, target in i.vfs.get("links", {}).items():
+        if p == name or p.is_relative_to(name):
+            return str(target / p.relative_to(name))
+    return str(p)
 
 
 def run(prog: Program, ctx: Ctx) -> None:  # noqa: PLR0912,PLR0915
@@ -39,29 +71,14 @@ def run(prog: Program, ctx: Ctx) -> None:  # noqa: PLR0912,PLR0915
     fcls = prog.cls(f"{F}.ModuleFinder")
     it.ext_handlers["pathlib.Path"] = lambda _i, *a: PP(*[str(x) for x in a])
     it.ext_handlers["os.path.splitext"] = lambda _i, p: __import__("os").path.splitext(p)
+    it.ext_handlers["os.walk"] = _walk
+    it.ext_handlers["os.path.realpath"] = _realpath
     it.ext_handlers["os.path.exists"] = lambda i, p: PP(p) in i.vfs["files"] or PP(p) in i.vfs["dirs"]
 
     def finder(search_paths: list[str], vfs: dict, order: str) -> Obj:
         vfs = {**vfs, "order": ORDERS[order]}
         it.vfs = vfs
 
-        def filter_py(_i, self_, path):
-            exts = it.getattr(self_, "extensions_set")
-            out = []
-            # emulate os.walk(topdown) with the chosen listing order, pruning __pycache__
-            def walk(d):
-                entries = ORDERS[order]([p for p in [*vfs["files"], *vfs["dirs"]] if p.parent == d and p != d])
-                files_ = [p for p in entries if p in vfs["files"]]
-                dirs_ = [p for p in entries if p in vfs["dirs"] and p.name != "__pycache__"]
-                for f_ in files_:
-                    if f_.suffix in exts:
-                        out.append(f_)
-                for d_ in dirs_:
-                    walk(d_)
-            walk(path)
-            return out
-
-        it.stubs[f"{F}.ModuleFinder._filter_py_modules"] = filter_py
         it.stubs[f"{F}._is_pkg_style_namespace"] = lambda _i, init: "declare_namespace" in vfs["files"].get(init, "")
         return Obj(fcls, {"search_paths": [PP(p) for p in search_paths], "_paths_contents": {}, "_always_scan_for": {}}, label="finder")
 
@@ -148,8 +165,17 @@ def run(prog: Program, ctx: Ctx) -> None:  # noqa: PLR0912,PLR0915
         "stub-only sub-package": ({"/s/pkg/__init__.py": "", "/s/pkg/sub/__init__.pyi": "", "/s/pkg/sub/m.pyi": ""}, PP("/s/pkg/__init__.py"),
                                   {("sub",): "/s/pkg/sub/__init__.pyi", ("sub", "m"): "/s/pkg/sub/m.pyi"}),
     }
+    # one real directory reachable under two names through directory symlinks: CPython imports the modules under both names
+    layouts["sub-package symlinked next to itself"] = (
+        ({"/s/pkg/__init__.py": "", "/s/pkg/_impl/__init__.py": "", "/s/pkg/_impl/mod.py": ""}, {"/s/pkg/compat": "/s/pkg/_impl"}), PP("/s/pkg/__init__.py"),
+        {("_impl",): "/s/pkg/_impl/__init__.py", ("_impl", "mod"): "/s/pkg/_impl/mod.py", ("compat",): "/s/pkg/compat/__init__.py", ("compat", "mod"): "/s/pkg/compat/mod.py"})
+    layouts["two links to a shared directory"] = (
+        ({"/s/pkg/__init__.py": "", "/s/pkg/a/__init__.py": "", "/s/pkg/b/__init__.py": "", "/shared/__init__.py": "", "/shared/tool.py": ""},
+         {"/s/pkg/a/shared": "/shared", "/s/pkg/b/shared": "/shared"}), PP("/s/pkg/__init__.py"),
+        {("a",): "/s/pkg/a/__init__.py", ("b",): "/s/pkg/b/__init__.py", ("a", "shared"): "/s/pkg/a/shared/__init__.py", ("a", "shared", "tool"): "/s/pkg/a/shared/tool.py",
+         ("b", "shared"): "/s/pkg/b/shared/__init__.py", ("b", "shared", "tool"): "/s/pkg/b/shared/tool.py"})
     for label, (files, modpath, want) in layouts.items():
-        vfs = _vfs(files)
+        vfs = _vfs(*files) if isinstance(files, tuple) else _vfs(files)
         results = {}
         for o in ORDERS:
             fo = finder(["/s", "/p1", "/p2"], vfs, o)
@@ -181,25 +207,28 @@ def run(prog: Program, ctx: Ctx) -> None:  # noqa: PLR0912,PLR0915
             ok = last.get(("a",), "").endswith(("a.py", "a.pyi")) and last.get(("b",), "").endswith("b.so")
             ctx.ob("R3", f"submodules|{label}", ok, f"winner per module when several files provide it: {last} (extension module > source > bytecode)", where(sm))
 
-    # .pth scan order
-    ep = prog.function(f"{F}.ModuleFinder._extend_from_pth_files")
-    vfs = _vfs({"/site/a.pth": "/x1", "/site/b.pth": "/x2", "/site/c.txt": "", "/x1/pkg/__init__.py": "", "/x2/pkg/__init__.py": ""})
-    outs = {}
-    for o in ORDERS:
-        fo = finder(["/site"], vfs, o)
-        sp_cls = prog.cls(f"{F}._SP")
-        it.stubs[f"{F}._handle_pth_file"] = lambda _i, path: [Obj(sp_cls, {"path": PP(_i.vfs["files"][path].strip()), "always_scan_for": ""})]
-        it.stubs[f"{F}.ModuleFinder.append_search_path"] = lambda _i, self_, path: self_.attrs["search_paths"].append(path) if path not in self_.attrs["search_paths"] else None
-        it.steps = 0
-        try:
-            it.call(ep, fo)
-            outs[o] = [str(p) for p in fo.attrs["search_paths"]]
-        except Raised as r:
-            outs[o] = f"raises {r.exc}"
-        it.stubs.pop(f"{F}._handle_pth_file", None)
-        it.stubs.pop(f"{F}.ModuleFinder.append_search_path", None)
-    same = len({repr(v) for v in outs.values()}) == 1
-    ctx.ob("R1", "order|pth-scan", same and outs.get("sorted") == ["/site", "/x1", "/x2"], f".pth files extend the search paths in sorted order whatever the listing order: {outs}", where(ep))
+    # .pth scan order, through the constructor (the public way in): ModuleFinder(search_paths) on a virtual file system
+    init = prog.lookup_method(fcls, "__init__")[0]
+    pth_layouts = {
+        "two .pth files in one directory": (["/site"], {"/site/a.pth": "/x1", "/site/b.pth": "/x2\n# comment\n\n/nowhere", "/site/c.txt": "/x3", "/x1/pkg/__init__.py": "",
+                                                         "/x2/pkg/__init__.py": "", "/x3/pkg/__init__.py": ""}, ["/site", "/x1", "/x2"]),
+        "a .pth entry that is already a search path": (["/site", "/x1"], {"/site/a.pth": "/x1\n/x2", "/x1/m.py": "", "/x2/m.py": ""}, ["/site", "/x1", "/x2"]),
+    }
+    for label, (sps, files, want) in pth_layouts.items():
+        outs = {}
+        for o in ORDERS:
+            it.vfs = {**_vfs(files), "order": ORDERS[o]}
+            it.steps = 0
+            try:
+                fo = it._construct(fcls, [list(sps)], {})
+                outs[o] = [str(p_) for p_ in fo.attrs["search_paths"]]
+            except Raised as r:
+                outs[o] = f"raises {r.exc}"
+        same = len({repr(v) for v in outs.values()}) == 1
+        ctx.ob("R1", f"order|pth-scan|{label}", same and outs.get("sorted") == want,
+               f"ModuleFinder({sps}) with {label}: search paths {outs} whatever the listing order; expected {want} (existing directories named by .pth files, "
+               "in sorted file order, each once)", where(init))
+    # (where the additions of an earlier directory's .pth files go relative to LATER configured search paths is not decided: `site` itself interleaves them)
     # a package asked for by *path* (the development checkout) wins over a same-named package of a configured search path (the installed release)
     fs = prog.function(f"{F}.ModuleFinder.find_spec")
     for layout, files in {
